@@ -14,13 +14,14 @@ import (
 
 // C10 - the message-size limit bounds buffering on every path.
 
-const ruleC10 = "rapid draws a per-service limit L in {256 B .. 64 KiB} and one request or response message whose size is placed relative to L in a chosen representation (wire, decompressed, re-encoded, re-compressed): L-64, L-1, L, L+1, 2L, 10L, and highly compressible payloads inflating 20..1000 x; declared or undeclared lengths; every client form x target configuration, i.e. every adapter path. Oracles: (A1) the largest pooled buffer seen during the request (instrumented pool, tag verif) is <= 8L + 64 KiB and the bytes allocated during ServeHTTP (runtime.MemStats.TotalAlloc delta, single in-flight request) are <= 24L + 24 MiB; (A2) if every representation of every message is <= L - margin the RPC is not rejected with resource_exhausted; (A3) a message delivered in converted form had wire, decompressed and observed re-encoded size <= L; (A4) a size rejection carries resource_exhausted and the oversized message is not delivered; (A7) metadata of a compressed end-of-stream / trailer frame that inflates beyond L is not delivered when the transcoder has to read the frame; (A6) a request message whose plain form exceeds L and which the transcoder itself had to inflate never reaches the backend as a cleanly ending payload, not even truncated. Non-trivial = some representation within [L/2, 4L] or a compression ratio >= 20; distinct by hash(L, direction, sizes, client and backend triple)."
+const ruleC10 = "rapid draws a per-service limit L in {256 B .. 64 KiB} and one request or response message whose size is placed relative to L in a chosen representation (wire, decompressed, re-encoded, re-compressed): L-64, L-1, L, L+1, 2L, 10L, and highly compressible payloads inflating 20..1000 x; declared or undeclared lengths; every client form x target configuration, i.e. every adapter path. Oracles: (A1) the largest pooled buffer seen during the request (instrumented pool, tag verif) is <= 8L + 64 KiB and the bytes allocated during ServeHTTP (runtime.MemStats.TotalAlloc delta, single in-flight request) are <= 24L + 24 MiB; (A2) if every representation of every message is <= L - margin the RPC is not rejected with resource_exhausted; (A3) a message delivered in converted form had wire, decompressed and observed re-encoded size <= L; (A4) a size rejection carries resource_exhausted and the oversized message is not delivered; (A8) the message of an un-enveloped backend's error body larger than L is not delivered when the transcoder has to read that body; (A7) metadata of a compressed end-of-stream / trailer frame that inflates beyond L is not delivered when the transcoder has to read the frame; (A6) a request message whose plain form exceeds L and which the transcoder itself had to inflate never reaches the backend as a cleanly ending payload, not even truncated. Non-trivial = some representation within [L/2, 4L] or a compression ratio >= 20; distinct by hash(L, direction, sizes, client and backend triple)."
 
 type sizeCase struct {
 	Sc        Scenario `json:"scenario"`
 	Direction string   `json:"direction"` // request | response
 	Payload   int      `json:"payload"`   // size of the blob inside the message
 	Compressible bool  `json:"compressible"`
+	ErrorBody bool     `json:"error_body,omitempty"` // the big item is the error body of a Connect-unary / REST backend
 	EndFrame  bool     `json:"end_frame,omitempty"` // the big item is the metadata of a compressed end-of-stream / trailer frame
 }
 
@@ -181,6 +182,24 @@ func TestC10(t *testing.T) {
 			}
 			c.Sc.Config.OtherOpts = nil
 		}
+		if c.Direction == "response" && !c.EndFrame && rapid.IntRange(0, 6).Draw(t, "error_body_class") == 0 {
+			// the error body of an un-enveloped backend as the big item (the error-body adapter path):
+			// an error whose message makes the JSON body about c.Payload bytes, written in chunks
+			if c.Payload > 2<<20 {
+				c.Payload = 2 << 20
+			}
+			c.Sc.Backend.Kind = "error"
+			c.Sc.Backend.Msgs, c.Sc.Backend.MsgRaw = nil, nil
+			c.Sc.Backend.Err = &ErrSpec{Code: int64(rapid.IntRange(1, 16).Draw(t, "error_body_code")), Message: strings.Repeat("e", c.Payload)}
+			c.Sc.Backend.Compress, c.Sc.Backend.CompressError = c.Compressible, c.Compressible
+			c.Sc.Backend.WriteChunk = rapid.SampledFrom([]int{0, 100, 200, 1000}).Draw(t, "error_body_chunk")
+			c.Sc.Config.Protocols = []string{rapid.SampledFrom([]string{ProtoConnect, ProtoREST}).Draw(t, "error_body_target")}
+			if mi.CStream || mi.SStream {
+				c.Sc.Config.Protocols = []string{ProtoREST} // (a Connect stream carries its error in the end frame, see the end-frame class)
+			}
+			c.Sc.Config.OtherOpts = nil
+			c.ErrorBody = true
+		}
 		judge(t, "C10", c, checkC10(c))
 	})
 }
@@ -298,6 +317,14 @@ func checkC10(c *sizeCase) *CheckResult {
 			}
 		}
 	}
+	// A8: an error body larger than the limit (on the wire or inflated) that the transcoder has to read
+	// - the client speaks another protocol than the un-enveloped backend - does not reach the client
+	if c.ErrorBody && view != nil && !out.Direct && (view.Protocol == ProtoREST || (view.Protocol == ProtoConnect && view.Sub != "stream")) {
+		res.class("error_body target=%s outcome=%s", view.Protocol, cv.outcome())
+		if c.Payload > L && cv.Err != nil && len(cv.Err.Message) > L && strings.HasPrefix(cv.Err.Message, "eeee") {
+			res.violate("oversized_error_delivered", sig+":a8", "limit %d: the backend's error body of more than %d bytes was read and its message of %d bytes delivered to the %s client (outcome %s)", L, c.Payload, len(cv.Err.Message), sc.Client.Form, cv.outcome())
+		}
+	}
 	// A3: converted + delivered => every representation fits
 	if cv.OK && view != nil {
 		if c.Direction == "request" && len(view.Msgs) > 0 {
@@ -354,8 +381,8 @@ func checkC10(c *sizeCase) *CheckResult {
 		}
 		fits := true
 		sizes := []int{reqWire, reqPlain}
-		if c.EndFrame {
-			sizes = append(sizes, c.Payload+64) // the end frame is a message-sized item, too
+		if c.EndFrame || c.ErrorBody {
+			sizes = append(sizes, c.Payload+128) // the end frame / error body is a message-sized item, too
 		}
 		if view != nil {
 			sizes = append(sizes, maxLen(view.Payloads), maxInts(view.WireSizes))
